@@ -171,7 +171,7 @@ deriving Repr, Inhabited
 def loadAdjust (samp : List SRow) (ref : List RRow) (skipLow fixGc fixEdge fixRmask : Bool)
     (par : Option String) (perm : List Nat) (wing : Nat) (edgeKeys : Option (List Rat) := none) :
     Except FixErr (List SRow × List RRow × Rat) :=
-  if samp.isEmpty then .ok ([], [], 1) else
+  if samp.isEmpty then .ok ([], [], 0) else
   let samp := sortS samp
   match matchRef ref samp with
   | .error e => .error e
@@ -181,7 +181,7 @@ def loadAdjust (samp : List SRow) (ref : List RRow) (skipLow fixGc fixEdge fixRm
     let rf := refM.filter (fun r => !badBin r)
     let cn1 := centerS skipLow par cn0
     let nOk := (cn1.filter (fun r => decide (r.log2 > Generated.NULL_LOG2_COVERAGE - Generated.MIN_REF_COVERAGE))).length
-    if nOk ≤ cn1.length / 2 then .ok (cn1, rf, 1) else
+    if nOk ≤ cn1.length / 2 then .ok (cn1, rf, 0) else
     let cn2 := if fixGc && rf.all (·.gc.isSome) && !rf.isEmpty then
         centerByWindow perm wing cn1 (rf.map (fun r => r.gc.getD 0)) else cn1
     -- sort keys of the edge correction: the exact formula, or (when supplied) the doubles numpy computed
